@@ -16,7 +16,7 @@ def chk(pid, engine, cat, text, tech, ref, note=TRUST_E1):
       "technique": tech}
 
 chk("C01", E1, "exploration",
-    "Seeded search over delivery schedules (10 strategies, skewed starts, serial/concurrent dispatch, loud and silent mode) of complete BLS key generations through the real orchestrator/synchroniser/reliable broadcast/buffer, 2<=t<=n<=4 (thorough: 6); after each run the documented flow (load stored data, ThresholdPK, Sign, AggregateSignatures, Verify) is executed for 5 digests and every subset of size >= t, and public material is compared byte for byte.",
+    "Seeded search over delivery schedules (10 strategies, skewed starts, serial/concurrent dispatch, loud and silent mode) of complete BLS key generations through the real orchestrator/synchroniser/reliable broadcast/buffer, 2<=t<=n<=4 (thorough: 6); ~6% of the runs are the orchestrated-signing half: KeyGen then Sign among t+1 nodes through the real EdDSA adapter and tss-lib (ECDSA in the thorough tier), every returned signature verified with crypto/ed25519 / crypto/ecdsa for the requested digest incl. leading-zero, short and empty digests; after each BLS run the documented flow (load stored data, ThresholdPK, Sign, AggregateSignatures, Verify) is executed for 5 digests and every subset of size >= t, and public material is compared byte for byte.",
     "deterministic simulation (synctest bubble, seeded scheduler over per-link FIFO queues) + exhaustive subset oracle with real pairing crypto", "DESIGN.md §4 C01")
 BYZ = "Sessions (KeyGen or Sign, N=3..4, thorough ..6) of real Schemes with a scripted backend in which 1..N-2 participants are Byzantine: they run the real stack, but everything they transmit passes an adversary (equivocation per destination, forged acknowledgements about themselves / others / unseen digests placed before or after the payload, replays, mutated and withheld acknowledgements) and outsiders (configured non-participants, unknown ids) inject traffic; all interleaved by 10 scheduling strategies. "
 chk("C02", E1, "exploration",
@@ -53,6 +53,10 @@ chk("C13", E1, "exploration",
     "Runs 0..454 enumerate all pairs and triples of 14 boundary identifiers (byte boundaries, 0, 0xFFFF); further runs sample the 16-bit range. Each case is a fault-free session (sync + KeyGen and/or Sign, scripted backend with rounds 0..127, or BLS with serialisation round trip and sign/verify) run twice under the same seed: with the drawn ids and with the order-isomorphic ids 1..n; outcome, hand-off counts and totality must agree.",
     "deterministic simulation, differential twin run (large ids vs order-isomorphic small ids)", "DESIGN.md §4 C13")
 
+chk("C19", E1, "exploration",
+    "KeyGen followed by Sign among t+1 nodes with the real EdDSA adapter and real tss-lib v2.0.2 through the full stack under seeded schedules, (n,t) in {(2,1),(3,1),(3,2),(4,2),(4,3)}; ECDSA in ~4% (quick) / 12% (thorough) of the runs (20-60 s each: safe-prime generation has no seam). A recording proxy captures every sendMsg(payload, isBroadcast): a fresh receiver-side adapter must classify each payload with the same broadcast flag; distinct broadcast-class type URLs of one phase must have distinct rounds; in 20% of the EdDSA runs one participant re-sends other parties' payloads under its own authenticated identity and the honest parties must finish with a valid signature or all fail; every returned signature is verified with crypto/ed25519 / crypto/ecdsa for the requested digest (32 random bytes, leading zero bytes, 0..20 bytes, 64 bytes) and must not verify for other sampled digests.",
+    "deterministic simulation of the real adapters + tss-lib, routing/classification monitor, independent signature verification", "DESIGN.md §4 C19",
+    note="Trusted: the simulator, crypto/ed25519, crypto/ecdsa. tss-lib runs its own goroutines and randomness: these runs replay by schedule, not byte for byte. In tss-lib v2.0.2 the wire bytes carry no sender (the adapter compares the transport sender with itself), so the sender-binding clause is only exercised behaviourally.")
 chk("C20", E1, "exploration",
     "The worker is compiled with the Go race detector (GORACE=halt_on_error). Scenarios: BLS/PS key generation with a deviating participant (early reveal, duplicates, late share, second commitment, withholding, malformed, none) and session histories (concurrent Sign on several topics, overlapping, cancelled, retried; KeyGen), loud and silent, all with concurrent dispatch: the simulator starts up to 4 deliveries into the same node in one step, each on its own goroutine, next to protocol goroutines and timers. A race report or panic kills the worker; the driver captures it, re-executes the seed (several attempts: the interleaving inside a step is the Go scheduler's) and writes the replay.",
     "deterministic simulation with concurrent dispatch under the Go race detector", "DESIGN.md §4 C20",
